@@ -42,9 +42,21 @@ def dropKey (d key : String) : String :=
 
 def nthCsv (csv : String) (i : Nat) : String := ((csv.splitOn ",")[i]?).getD "?"
 
+/-- the prefix and those tokens of the input whose name is a metric of level ≤ l -/
+def part3 (l : Level) (vec : Bytes) : Bytes :=
+  match split slash vec with
+  | [] => []
+  | hd :: toks => join slash (hd :: toks.filter fun t =>
+      (V3.msOf l).any fun m => m.spec.name == ((split colon t).head?.getD []))
+
+def part2 (l : Level) (vec : Bytes) : Bytes :=
+  join slash ((split slash vec).filter fun t =>
+      (V2.msOf l).any fun m => m.spec.name == ((split colon t).head?.getD []))
+
 /-- `rt`: decoding the object's own encoding again gives the same observable state;
-    `pv`: each lower-level view equals a fresh lower-level decode of the view's encoding -/
-def flags3 (L : Level) (o : V3.Obj3) : String :=
+    `pv`: each lower-level view equals a fresh lower-level decode of the view's encoding;
+    `pw`: … of the input's own tokens of that level -/
+def flags3 (L : Level) (o : V3.Obj3) (vec : Bytes) : String :=
   let d := dump3 L o
   let (o2, e2) := V3.decode L V3.Obj3.new (V3.encode L o).1
   let rt := if e2.isNone && dropKey (dump3 L o2) "n" == dropKey d "n" then "1" else "0"
@@ -53,7 +65,11 @@ def flags3 (L : Level) (o : V3.Obj3) : String :=
     let (ol, el) := V3.decode l V3.Obj3.new (V3.encode l o).1
     if el.isNone && V3.score l ol == V3.score l o && V3.severity l ol == V3.severity l o
        && V3.encode l ol == V3.encode l o then '1' else '0')
-  s!" rt={rt} pv={if pv == "" then "-" else pv}"
+  let pw := String.ofList (lows.map fun l =>
+    let (ol, el) := V3.decode l V3.Obj3.new (part3 l vec)
+    if el.isNone && V3.score l ol == V3.score l o && V3.severity l ol == V3.severity l o
+       && V3.encode l ol == V3.encode l o then '1' else '0')
+  s!" rt={rt} pv={if pv == "" then "-" else pv} pw={if pw == "" then "-" else pw}"
 
 def opD3 (L : Level) (vec : Bytes) (nilRecv : Bool) : String :=
   let (o, e) := V3.decode L V3.Obj3.new vec
@@ -61,7 +77,7 @@ def opD3 (L : Level) (vec : Bytes) (nilRecv : Bool) : String :=
   if nilRecv && e.isSome then head
   else head ++ " " ++ dump3 L o ++ (if dump3 L o == dump3 L o then " q2=1" else " q2=0")
     ++ " vq=" ++ (if L == .base then "-" else String.ofList ((levelsUpTo L).filter (· != L) |>.map fun _ => '1'))
-    ++ (if e.isNone then flags3 L o else "")
+    ++ (if e.isNone then flags3 L o vec else "")
 
 def dump2 (L : Level) (o : V2.Obj2) : String :=
   let ms := V2.msOf L
@@ -79,7 +95,7 @@ def dump2 (L : Level) (o : V2.Obj2) : String :=
     toString (if l == .temporal then V2.tempEmpty o else V2.envEmpty o))
   s!"f={f} fc={fc} n={n} s={s} sv={sv} svn={svn} enc={enc} ge={ge} se={se} emp={emp}"
 
-def flags2 (L : Level) (o : V2.Obj2) : String :=
+def flags2 (L : Level) (o : V2.Obj2) (vec : Bytes) : String :=
   let d := dump2 L o
   let (o2, e2) := V2.decode L V2.Obj2.new (V2.encode L o).1
   let rt := if e2.isNone && dropKey (dump2 L o2) "n" == dropKey d "n" then "1" else "0"
@@ -88,7 +104,11 @@ def flags2 (L : Level) (o : V2.Obj2) : String :=
     let (ol, el) := V2.decode l V2.Obj2.new (V2.encode l o).1
     if el.isNone && V2.score l ol == V2.score l o && V2.severity l ol == V2.severity l o
        && V2.encode l ol == V2.encode l o then '1' else '0')
-  s!" rt={rt} pv={if pv == "" then "-" else pv}"
+  let pw := String.ofList (lows.map fun l =>
+    let (ol, el) := V2.decode l V2.Obj2.new (part2 l vec)
+    if el.isNone && V2.score l ol == V2.score l o && V2.severity l ol == V2.severity l o
+       && V2.encode l ol == V2.encode l o then '1' else '0')
+  s!" rt={rt} pv={if pv == "" then "-" else pv} pw={if pw == "" then "-" else pw}"
 
 def opD2 (L : Level) (vec : Bytes) (nilRecv : Bool) : String :=
   let (o, e) := V2.decode L V2.Obj2.new vec
@@ -96,7 +116,7 @@ def opD2 (L : Level) (vec : Bytes) (nilRecv : Bool) : String :=
   if nilRecv && e.isSome then head
   else head ++ " " ++ dump2 L o ++ (if dump2 L o == dump2 L o then " q2=1" else " q2=0")
     ++ " vq=" ++ (if L == .base then "-" else String.ofList ((levelsUpTo L).filter (· != L) |>.map fun _ => '1'))
-    ++ (if e.isNone then flags2 L o else "")
+    ++ (if e.isNone then flags2 L o vec else "")
 
 
 end Drv
